@@ -79,6 +79,8 @@ def analyse(ctx: Ctx, modules: tuple[str, ...]) -> tuple[list[Finding], dict]:
                 stats["functions"] += 1
                 has_flag = "for_dump" in fn.param_names()
                 variants = [({"for_dump": v}, f"for_dump={v}") for v in (True, False)] if has_flag else [({}, "")]
+                if "splat_internal" in fn.param_names():  # both readings of the flag (None defaults to one of them)
+                    variants = [({**c, "splat_internal": v}, f"{lbl} splat_internal={v}".strip()) for c, lbl in variants for v in (True, False)]
                 for consts, label in variants:
                     p = dict(params)
                     ret = METHOD_SIGS.get(mname).ret if mname in METHOD_SIGS else None
